@@ -1,5 +1,6 @@
 """C11 the schema parser is total and accepts exactly well-formed schemas."""
 import json
+import re
 import random
 
 from . import common
@@ -108,7 +109,18 @@ def check(run, replay_case=None):
             continue
         if 'ok' not in pe:
             if c['origin'] == 'generated-valid':
-                run.violation('wellformed-rejected kind=%s' % outcome, 'a generated well-formed schema is rejected: %s' % pe['err']['msg'][:200], c, observed=pe)
+                kind = outcome
+                msg = pe['err']['msg']
+                if "`default`'s value type" in msg:
+                    # which well-formed default was refused: one holding code points 128..255 for bytes/fixed (materialised as UTF-8 by the
+                    # library, so the length no longer fits), or something else
+                    if re.search(r'"logicalType": *"uuid"', c['text']):
+                        kind = 'default-refused:union-with-uuid-branch'
+                    elif re.search('[\u0080-\u00ff]|\\\\u00[89a-fA-F][0-9a-fA-F]', c['text']):
+                        kind = 'default-refused:bytes-or-fixed-with-code-points-128-255'
+                    else:
+                        kind = 'default-refused:other'
+                run.violation('wellformed-rejected kind=%s' % kind, 'a generated well-formed schema is rejected: %s' % msg[:200], c, observed=pe)
             continue
         n_acc += 1
         run.sample({'text': c['text'][:400], 'origin': c['origin'], 'mutation': c['mut'], 'outcome': 'accepted'})
